@@ -258,6 +258,41 @@ fn run(ctx: &mut Ctx) {
             }
         }
     });
+    // ---- 60..90 short, well separated prongs of 13..15 hits each (a call that finds more than 64 clusters), plus points
+    // inside the inner cathode radius and beyond the wires
+    ctx.cases("many-prongs", ctx.tier.pick(6, 60), |ctx, i, rng| {
+        let nprongs = 58 + rng.usize(15);
+        let mut pts: Vec<SpacePoint> = Vec::new();
+        let a0 = rng.range(-PI, PI);
+        for k in 0..nprongs {
+            // prong k: 13..15 hits 4 mm apart on a circle of radius 20 cm through the beamline (one Hough bin), all at one
+            // z; consecutive prongs are 3.2 cm apart in z and turned against each other, so they do not link
+            let alpha = a0 + 2.0 * PI * k as f64 / nprongs as f64;
+            let z = -1.05 + 0.032 * k as f64;
+            for j in 0..13 + (k + i as usize) % 3 {
+                let r = 0.113 + 0.004 * j as f64;
+                pts.push(sp(r, alpha + (r / 0.40).acos(), z));
+            }
+        }
+        if i % 2 == 0 {
+            for _ in 0..10 {
+                pts.push(sp(*rng.pick(&[0.05, 0.08, 0.10, 0.109, 0.195, 0.24]), rng.range(-PI, PI), rng.range(-1.2, 1.2)));
+            }
+        }
+        rng.shuffle(&mut pts);
+        ctx.eval();
+        let v = pts.clone();
+        match guard(move || cluster_spacepoints(v)) {
+            Err(p) => ctx.panic_violation("cluster_spacepoints", &p, json!({"n_points": pts.len()})),
+            Ok(res) => {
+                ctx.observe_max("most clusters found in one call", res.clusters.len() as f64);
+                if res.clusters.len() > 64 {
+                    ctx.count("calls that found more than 64 clusters");
+                }
+                check_clustering(ctx, &pts, &res);
+            }
+        }
+    });
     let n = ctx.tier.pick(600, 20_000);
     ctx.cases("tracklists", n, |ctx, i, rng| {
         let k = rng.usize(9);
